@@ -24,7 +24,8 @@ M = [
  ("c06-dtls-fragment-overread", "C06", "dtls.rs", "    let (i, raw_msg) = take(fragment_length)(i)?;", "    let (i2, raw_msg) = take(fragment_length)(i)?;\n    let raw_msg = if is_server_done(msg_type) { i } else { raw_msg };\n    let i = i2;", "DTLS ServerHelloDone body reads everything behind the message"),
  ("c07-cap-gt", "C07", "tls_records_parser.rs", "            >= MAX_RECORD_DATA", "            > MAX_RECORD_DATA + 16640", "defragmenter cap check loosened (buffer may reach 10 MiB)"),
  ("c07-no-clear", "C07", "tls_records_parser.rs", "            self.record_defrag_buffer.clear();\n", "", "buffer not cleared when a new defragmentation starts (stale bytes)"),
- ("c07-type-not-cleared", "C07", "tls_records_parser.rs", "                self.current_record_type = None;\n", "", "defragmentation not ended after a completed message"),
+ ("c07-type-not-cleared", "C07", "tls_records_parser.rs", "                // set current_record_type to None, but keep buffer (remaining bytes)\n                self.current_record_type = None;\n", "", "defragmentation not ended after a completed message"),
+ ("c07-error-not-ended", "C07", "tls_records_parser.rs", "            other => {\n                self.current_record_type = None;\n                other\n            }", "            other => other,", "defragmentation not ended when the completed payload is malformed (the defect fixed by 709c8b5)"),
  ("c07-append-before-check", "C07", "tls_records_parser.rs", "        let record_type = record.hdr.record_type;\n        if Some(record_type) != self.current_record_type {", "        let record_type = record.hdr.record_type;\n        if Some(record_type) != self.current_record_type && !record.data.is_empty() {", "an empty record of a foreign type is accepted into the fragment stream"),
  ("c07-nocopy-no-refuse", "C07", "tls_records_parser.rs", "        if self.defrag_in_progress() {\n            return Err(Err::Failure(Error::new(&[], ErrorKind::NonEmpty)));\n        }", "        if self.defrag_in_progress() && record.data.len() > 3 {\n            return Err(Err::Failure(Error::new(&[], ErrorKind::NonEmpty)));\n        }", "parse_record_nocopy does not refuse short records while defragmenting"),
  ("c07-reset-keeps-type", "C07", "tls_records_parser.rs", "        *self = Self::default();", "        self.record_defrag_buffer.clear();", "reset() forgets to end the defragmentation"),
